@@ -19,6 +19,7 @@ func checkC12(c *Ctx) {
 	c.Decided = append(c.Decided,
 		"U-C12-lenblock: the GHASH length block is [8*len(A)]_64 || [8*len(C)]_64 (bit lengths, big-endian, A first)",
 		"K-C12-inc32: the counter increment adds one to the last four bytes only (big-endian, carry stops after byte len-4)",
+		"G-COPY-fresh: a scratch buffer refilled by copy without a new allocation in between is provably overwritten completely (zero padding by allocation holds only for the first fill): the zero-padded last blocks of A and C in GHASH",
 		"K-C12-mult: GF(2^128) multiplication scans Y most-significant-bit first, shifts V right by one bit across bytes and reduces with R = 0xe1||0^120",
 		"K-C12-formulas: H = E(K,0^128); J0 = IV||0x00000001 for 96-bit IVs (fresh buffer) and GHASH(H,{},IV) otherwise; T = MSB_128(E(K,J0) xor GHASH(H,A,C)) computed over the ciphertext in both directions; counter blocks Y[i], i>=1, from incr(n+1,J0); block i of the text is xored with E(K,Y[i]); decryption output has the ciphertext's length",
 		"FX-C12-inputs: GCMEncrypt/GCMDecrypt/Sm4GCM write none of their argument slices",
@@ -51,6 +52,7 @@ func checkC12(c *Ctx) {
 	c12LenBlock(c, fnm["GHASH"])
 	c12Inc32(c, fnm["incr"])
 	c12Mult(c, fnm)
+	staleScratch(c, "G-COPY-fresh", "sm4")
 	c12Formulas(c, fnm)
 
 	// FX
